@@ -344,6 +344,7 @@ func execAuthSeq(cs *Sx) string {
 // ---------- scenario generator: small vocabulary so that joins, checks and policies fire ----------
 
 type scenGen struct {
+	pool   []Pred // facts generated so far: queries derived from them are likely to hold
 	r      *Rng
 	preds  []string
 	arity  map[string]int
@@ -382,7 +383,39 @@ func (g *scenGen) fact() Pred {
 	for i := 0; i < g.arity[n]; i++ {
 		p.Terms = append(p.Terms, Pick(g.r, g.consts))
 	}
+	if len(g.pool) < 40 {
+		g.pool = append(g.pool, p)
+	}
 	return p
+}
+
+// queryFromPool generalises one or two generated facts into a query body (constants
+// consistently replaced by variables), so that the query holds if those facts are in scope.
+func (g *scenGen) queryFromPool() Rule {
+	r := g.r
+	q := Rule{Head: Pred{Name: "query"}}
+	names := map[string]string{}
+	for i, n := 0, 1+r.Intn(2); i < n; i++ {
+		f := Pick(r, g.pool)
+		p := Pred{Name: f.Name}
+		for _, t := range f.Terms {
+			if t.K != 'S' && r.Chance(1, 2) {
+				k := t.Sx()
+				if _, ok := names[k]; !ok {
+					names[k] = Pick(r, g.vars)
+					for _, used := range names {
+						_ = used
+					}
+				}
+				// one variable per distinct constant, so repeated variables stay consistent
+				p.Terms = append(p.Terms, V("g"+names[k]+fmt.Sprint(len(k)%7)))
+			} else {
+				p.Terms = append(p.Terms, t)
+			}
+		}
+		q.Body = append(q.Body, p)
+	}
+	return q
 }
 
 func (g *scenGen) atom() Pred {
@@ -476,6 +509,9 @@ func (g *scenGen) rule() Rule {
 }
 
 func (g *scenGen) query() Rule {
+	if len(g.pool) > 0 && g.r.Chance(1, 2) {
+		return g.queryFromPool()
+	}
 	body, ex := g.body()
 	return Rule{Head: Pred{Name: "query"}, Body: body, Exprs: ex}
 }
